@@ -9,6 +9,10 @@ CHECKS = {
     "C01": ("exploration", "3.C01", "Seeded search over wiring programs, statement orders and tick coincidences on the real wiring layer and simulation executor; every cycle of every run is checked against the program's own dependency relation, the compiled edge lists and the reference interpreter. Sampling, not proof: a clean batch is evidence that ranking and the evaluation scan respect dependencies for the shapes the generator reaches."),
     "C02": ("exploration", "3.C02", "Seeded search over wake-up schedules, run windows and wall-clock faults; cycle times are compared with a discrete-event reference model and every logged request must be honoured at exactly its time. Sampling of the schedule space; wall-clock independence is checked differentially on every case."),
     "C03": ("exploration", "3.C03", "Seeded search over programs built from the activity/validity vocabulary; each run is compared evaluation by evaluation (which user code ran, on which value/modified/valid triples, what it wrote) with an executable reference interpreter. Sampling of programs and input histories."),
+    "C06": ("exploration", "3.C06", "Each seeded program is wired in several admissible statement orders and seeded with duplicated and near-duplicated sub-expressions and sinks; streams must be identical across orders and equal to the reference interpreter on the un-shared program, and the compiled node count may never fall below the number of statement classes that must stay distinct. Sampling of programs, orders and duplicate placements."),
+    "C08": ("exploration", "3.C08", "Seeded search over programs with one to three feedback edges and writer scripts; for every feedback the stream at the reader is compared with the stream at the bound producer shifted by exactly one MIN_TD, and the whole run with the reference interpreter. Sampling."),
+    "C09": ("exploration", "3.C09", "Every case wires the same sub-graph definition inline and as a nested child at depth 1, 2 and 3 against the same inputs in one run; recorder streams must agree across the four variants and with the reference interpreter, and child graphs must be evaluated inside their parent's bracket at the parent's time. Sampling of definitions, scalars and inputs. Three genuine differences are recorded as known findings and reported as KNOWN-FINDING."),
+    "C18": ("exploration", "3.C18", "Seeded operation sequences on the real NodeScheduler executed by scripted nodes inside running graphs; every query answer after every operation is compared with a pending-set reference model and every pending time must produce an evaluation at exactly that time. Sampling of operation sequences."),
 }
 NOTE = ("Trusted base: g++ 12 / libstdc++, the /verif harness vocabulary and reference models (sim/*.py), the interposition of pthread and clock_gettime; "
         "the C++ tree is compiled from /repo's working tree (120 of 122 TUs; time-zone provider and JSON operator family are stubs). The Python bridge is not executed.")
